@@ -9,7 +9,7 @@
 */
 /* qb_rb_chunk_write(data, len), non-overwrite ring: returns len and publishes a chunk of exactly that
  * length holding the caller's bytes (witness byte) at write_pt, or returns -EAGAIN and changes nothing;
- * accepted exactly when free space >= len + 12. */
+ * never refused while it fits with 16 bytes of overhead; never accepted unless footprint + gap word fit. */
 #include "common.h"
 
 void harness(void)
@@ -34,7 +34,8 @@ void harness(void)
 
 	ssize_t rc = qb_rb_chunk_write(rb, src, nd_len);
 
-	POST((rc >= 0) == (freeb >= nd_len + 12), "a chunk is never refused while it fits with 12 bytes of margin, and never accepted otherwise");
+	POST(rc >= 0 || freeb < nd_len + 16, "a chunk is refused only when it does not fit the free space with 16 bytes of overhead");
+	POST(rc < 0 || (uint64_t)4 * spec_chunk_words((uint32_t)nd_len) + 4 <= freeb, "an accepted chunk fits the free region together with the gap word");
 	if (rc < 0) {
 		COVER(1);
 		POST(rc == -EAGAIN, "refused write reports 'try again'");
